@@ -8,6 +8,7 @@ All statements quantify over every exact rational input (the exact value of the 
 `x` always denotes the already-scaled measurement (lat·1e7, altHAE·100, track·10, speed·100, epx·100, epd·10).
 -/
 import FlexModel.Fac.MappingLemmas
+import FlexModel.Fac.MappingPathLemmas
 
 namespace Props.C11
 open FlexModel.Fac.Mapping FlexModel.Fac.MappingLemmas Generated.Fac Generated.Fac11
@@ -654,6 +655,198 @@ theorem cluster_info_values (c : Cluster) (h0 : 0 ≤ c.radius) (h1 : c.radius <
     have : 1 ≤ trunc c.radius := le_trunc (a := 1) (by simpa using h)
     have hm : max 1 (trunc c.radius) = trunc c.radius := by omega
     rw [hm]; exact trunc_close c.radius
+
+/-! ### path history of the CAM low-frequency container (round 4) -/
+
+/-- regenerated facts, source against ASN.1 text: the interval of rounded offsets `_get_path_history` accepts lies inside
+the DeltaLatitude / DeltaLongitude constraints, its size limit inside the `WITH COMPONENTS` size of the LF container and
+that inside `Path`, the pathDeltaTime clamp inside PathDeltaTime, deltaAltitude is the `unavailable` code, the stored
+entries are visited newest first -/
+theorem path_history_guards :
+    (DeltaLatitude_lo ≤ PH_LAT_LO ∧ PH_LAT_HI ≤ DeltaLatitude_hi ∧ DeltaLongitude_lo ≤ PH_LON_LO ∧ PH_LON_HI ≤ DeltaLongitude_hi) ∧
+    (1 ≤ PH_CAP ∧ PH_CAP ≤ LF_PATH_SIZE_HI ∧ LF_PATH_SIZE_HI ≤ Path_size_hi) ∧
+    (PathDeltaTime_lo ≤ PH_DT_LO ∧ PH_DT_LO ≤ PH_DT_HI ∧ PH_DT_HI ≤ PathDeltaTime_hi) ∧
+    PH_DALT = DeltaAltitude_unavailable ∧ PH_NEWEST_FIRST = 1 := by decide
+
+/-- for EVERY store of earlier positions and whatever offsets the double arithmetic produced: every emitted pathHistory
+point lies inside the PathPoint constraints (the encoder neither wraps nor raises nor truncates the CAM) and the list is
+not longer than the LF container allows -/
+theorem path_history_encodable (hs : List HOff) :
+    (∀ p ∈ pathHistory hs, p.encodable = true) ∧ ((pathHistory hs).length : Int) ≤ LF_PATH_SIZE_HI ∧
+    pathEncodable (pathHistory hs) = true := by
+  obtain ⟨hg, c1, c2, c3, _⟩ := ph_consts_good
+  have he := phLoop_encodable hg c1 (by omega : PH_CAP ≤ Path_size_hi) hs
+  refine ⟨fun p hp => ?_, ?_, he⟩
+  · obtain ⟨ha, h, _, rfl⟩ := phLoop_mem phGuard PH_CAP hs 0 p hp
+    exact pathPoint_encodable hg h ha
+  · have := phLoop_length phGuard PH_CAP hs 0
+    simp only [pathHistory]
+    push_cast at this
+    omega
+
+/-- order and completeness: the pathHistory is the rounding of a PREFIX of the stored positions, newest first (no
+reordering, no gap), and the prefix is maximal: it ends at the size limit, at the end of the store, or at the first
+position whose rounded offset the guard rejects -/
+theorem path_history_prefix (hs : List HOff) :
+    ∃ k : Nat, pathHistory hs = (hs.take k).map pathPointOf ∧
+      (k < hs.length → (k : Int) < PH_CAP → ∃ h, hs[k]? = some h ∧ phGuard.accepts (pathPointOf h) = false) := by
+  obtain ⟨k, e, m⟩ := phLoop_prefix phGuard PH_CAP hs 0
+  exact ⟨k, e, fun h1 h2 => m h1 (by push_cast; omega)⟩
+
+/-- the values of one emitted point: both offsets within HALF a unit (0.05 µdeg) of the exact offset; a regular value
+lies in −131071…131071; the `unavailable` code 131072 is written only for an offset of at least 131071.5 units, i.e.
+beyond the largest offset the element can express (the element has no outOfRange code); deltaAltitude is `unavailable`;
+pathDeltaTime is within half a unit (5 ms) of the age between 10 ms and 655.34 s and clamped to 1 / 65534 outside -/
+theorem path_point_values (h : HOff) (ha : phGuard.accepts (pathPointOf h) = true) :
+    let p := pathPointOf h
+    (((p.dlat : Int) : Rat) - 1 / 2 ≤ h.dlat ∧ h.dlat ≤ ((p.dlat : Int) : Rat) + 1 / 2) ∧
+    (((p.dlon : Int) : Rat) - 1 / 2 ≤ h.dlon ∧ h.dlon ≤ ((p.dlon : Int) : Rat) + 1 / 2) ∧
+    (p.dlat = DeltaLatitude_unavailable → (131071 : Rat) + 1 / 2 ≤ h.dlat) ∧
+    (p.dlat ≠ DeltaLatitude_unavailable → -131071 ≤ p.dlat ∧ p.dlat ≤ 131071) ∧
+    (p.dlon = DeltaLongitude_unavailable → (131071 : Rat) + 1 / 2 ≤ h.dlon) ∧
+    (p.dlon ≠ DeltaLongitude_unavailable → -131071 ≤ p.dlon ∧ p.dlon ≤ 131071) ∧
+    p.dalt = DeltaAltitude_unavailable ∧
+    (1 ≤ h.dt → h.dt ≤ 65534 → ((p.dtime : Int) : Rat) - 1 / 2 ≤ h.dt ∧ h.dt ≤ ((p.dtime : Int) : Rat) + 1 / 2) ∧
+    (h.dt ≤ 1 → p.dtime = 1) ∧ (65534 ≤ h.dt → p.dtime = 65534) := by
+  have hg : phGuard = ⟨-131071, 131072, -131071, 131072⟩ := by decide
+  have hc : PH_DT_LO = 1 ∧ PH_DT_HI = 65534 ∧ PH_DALT = 12800 := by decide
+  simp only [PhGuard.accepts, hg, Bool.and_eq_true, decide_eq_true_eq] at ha
+  obtain ⟨⟨⟨a1, a2⟩, a3⟩, a4⟩ := ha
+  have hla := pyRound_close h.dlat
+  have hlo := pyRound_close h.dlon
+  have hdt := pyRound_close h.dt
+  have e1 : (pathPointOf h).dlat = pyRound h.dlat := rfl
+  have e2 : (pathPointOf h).dlon = pyRound h.dlon := rfl
+  have e3 : (pathPointOf h).dtime = max 1 (min 65534 (pyRound h.dt)) := by simp only [pathPointOf, hc.1, hc.2.1]
+  have e4 : (pathPointOf h).dalt = 12800 := by simp only [pathPointOf, hc.2.2]
+  simp only [e1, e2, e3, e4, DeltaLatitude_unavailable, DeltaLongitude_unavailable, DeltaAltitude_unavailable] at *
+  refine ⟨hla, hlo, fun he => ?_, fun hne => ⟨a1, by omega⟩, fun he => ?_, fun hne => ⟨a3, by omega⟩, trivial, fun h1 h2 => ?_,
+    fun h1 => ?_, fun h2 => ?_⟩
+  · rw [he] at hla; have := hla.1; simp only [Rat.intCast_ofNat] at this; grind
+  · rw [he] at hlo; have := hlo.1; simp only [Rat.intCast_ofNat] at this; grind
+  · have b1 : (1 : Int) ≤ pyRound h.dt := le_pyRound (by simpa using h1)
+    have b2 : pyRound h.dt ≤ (65534 : Int) := pyRound_le (by simpa using h2)
+    have : max 1 (min 65534 (pyRound h.dt)) = pyRound h.dt := by omega
+    rw [this]; exact hdt
+  · have : pyRound h.dt ≤ (1 : Int) := pyRound_le (by simpa using h1)
+    omega
+  · have : (65534 : Int) ≤ pyRound h.dt := le_pyRound (by simpa using h2)
+    omega
+
+/-- non-vacuity of `path_point_values` and the behaviour at the limits of DeltaLatitude / DeltaLongitude: offsets
+−131071 and +131071 are sent as they are, +131072 is sent as 131072 (= `unavailable`), −131072 and ±131073 end the
+history; two earlier positions are sent newest first; ages of 4 ms / 7 days clamp to 1 / 65534 -/
+example :
+    pathHistory [⟨-131071, 131071, 100⟩] = [⟨-131071, 131071, 12800, 100⟩] ∧
+    pathHistory [⟨131072, 0, 100⟩] = [⟨131072, 0, 12800, 100⟩] ∧
+    pathHistory [⟨-131072, 0, 100⟩] = [] ∧ pathHistory [⟨0, -131072, 100⟩] = [] ∧
+    pathHistory [⟨131073, 0, 100⟩] = [] ∧ pathHistory [⟨0, -131073, 100⟩] = [] ∧
+    pathHistory [⟨5, 7, 100⟩, ⟨-131072, 0, 200⟩, ⟨3, 3, 300⟩] = [⟨5, 7, 12800, 100⟩] ∧
+    pathHistory [⟨1 / 2, 3 / 2, 2 / 5⟩, ⟨5 / 2, -1 / 2, 60480000⟩] = [⟨0, 2, 12800, 1⟩, ⟨2, 0, 12800, 65534⟩] ∧
+    (pathHistory (List.replicate 40 ⟨1, 1, 100⟩)).length = 23 := by decide +kernel
+example := path_point_values ⟨131072, -131071, 100⟩ (by decide +kernel)
+
+/-- no sequence of reports stalls CAM generation through the path history: for EVERY sequence of generation attempts
+(instants, reports with or without a position, and whatever offsets the store shows from the reported position) each
+attempt hands a CAM to BTP, none is skipped, every pathHistory sent survives the encoder and has at most 23 points, and
+the store never exceeds 40 entries -/
+theorem path_history_no_stall (ticks : List PhTick) :
+    let r := phRun phGuard PH_CAP ticks
+    r.out.length = ticks.length ∧ r.skipped = 0 ∧
+    (∀ o ∈ r.out, o = none ∨ ∃ ps, o = some ps ∧ pathEncodable ps = true ∧ (ps.length : Int) ≤ LF_PATH_SIZE_HI) ∧
+    (r.histLen : Int) ≤ PH_STORE_CAP := by
+  obtain ⟨hg, c1, c2, c3, _⟩ := ph_consts_good
+  obtain ⟨a, b, c, d⟩ := phRun_no_stall hg c1 (by omega : PH_CAP ≤ Path_size_hi) ticks {}
+  have h40 : (0 : Int) ≤ PH_STORE_CAP := by decide
+  refine ⟨by simpa [phRun] using a, by simpa [phRun] using b, ?_, ?_⟩
+  · intro o ho
+    rcases c o ho with h | h | ⟨ps, e, p1, p2⟩
+    · simp at h
+    · exact Or.inl h
+    · exact Or.inr ⟨ps, e, p1, by omega⟩
+  · simp only [phRun]
+    simp only [] at d
+    have : ((({} : PhTx).histLen : Nat) : Int) = 0 := rfl
+    omega
+
+/-- non-vacuity: a CAM at P, one 131072 units further south 1 s later (the stored P is dropped, the CAM is sent), two more
+at standstill there, the last without a position: four CAMs, none skipped -/
+example :
+    (phRun phGuard PH_CAP [⟨0, true, []⟩, ⟨1000, true, [southLimit]⟩, ⟨2000, true, [⟨0, 0, 100⟩, ⟨-131072, 0, 200⟩]⟩,
+      ⟨3000, false, []⟩]).out = [some [], some [⟨0, 0, 12800, 100⟩], some [], some []] := by decide +kernel
+
+/-- witness for the guard (the seeded 'simplification' `max(abs(dlat), abs(dlon)) > 131072`): a vehicle that sent a CAM at
+P and then stands 131072 units further south NEVER sends a CAM again — for every sequence of later generation instants
+the stored P is put into the LF container with offset −131072, the encoder cannot represent it, the exception is
+swallowed, no state changes, the LF container stays due; with the regenerated guard the same reports are all sent -/
+theorem path_history_stall_witness (nows : List Int) (h : ∀ t ∈ nows, 500 ≤ t) :
+    let ticks : List PhTick := ⟨0, true, []⟩ :: nows.map (fun t => ⟨t, true, [southLimit]⟩)
+    (phRun symGuard PH_CAP ticks).out = [some []] ∧ (phRun symGuard PH_CAP ticks).skipped = nows.length ∧
+    (phRun phGuard PH_CAP ticks).out.length = nows.length + 1 ∧ (phRun phGuard PH_CAP ticks).skipped = 0 := by
+  have key : ∀ (ns : List Int) (s : PhTx), (∀ t ∈ ns, 500 ≤ t) → s.lastLf = some 0 → 1 ≤ s.histLen →
+      ((ns.map (fun t => (⟨t, true, [southLimit]⟩ : PhTick))).foldl (fun s t => phAttempt symGuard PH_CAP s t.now t.pos t.offs) s).out = s.out ∧
+      ((ns.map (fun t => (⟨t, true, [southLimit]⟩ : PhTick))).foldl (fun s t => phAttempt symGuard PH_CAP s t.now t.pos t.offs) s).skipped
+        = s.skipped + ns.length := by
+    intro ns
+    induction ns with
+    | nil => intro s _ _ _; simp
+    | cons t ts ih =>
+      intro s hn hl hh
+      have ht : 500 ≤ t := hn t (by simp)
+      have hstep := symGuard_stall_step s t ⟨0, hl, by omega⟩ hh []
+      simp only [List.map_cons, List.foldl_cons, hstep]
+      obtain ⟨a, b⟩ := ih { s with skipped := s.skipped + 1 } (fun u hu => hn u (by simp [hu])) hl hh
+      exact ⟨a, by simp only [] at b; simp only [List.length_cons]; omega⟩
+  have hfirst : phAttempt symGuard PH_CAP {} 0 true [] = { camCount := 1, lastLf := some 0, histLen := 1, out := [some []], skipped := 0 } := by
+    decide +kernel
+  intro ticks
+  obtain ⟨a, b⟩ := key nows (phAttempt symGuard PH_CAP {} 0 true []) h (by rw [hfirst]) (by rw [hfirst]; decide)
+  obtain ⟨c, d, _, _⟩ := path_history_no_stall ticks
+  refine ⟨?_, ?_, by simpa [ticks] using c, d⟩
+  · simp only [ticks, phRun, List.foldl_cons]; rw [a, hfirst]
+  · simp only [ticks, phRun, List.foldl_cons]; rw [b, hfirst]; simp
+
+/-! ### the VAM between construction and BTP: every clustering state, with and without an LDM adapter (round 4) -/
+
+/-- regenerated facts about `send_next_vam` and the CHOICE value of the cluster information container: the message is not
+deep-copied on its way to BTP (`VAM_LDM_SNAPSHOT_DEEP = 0`), or the CHOICE value can be rebuilt by `copy`, or the LDM
+block is guarded -/
+theorem vam_ldm_path_facts : (VAM_LDM_SNAPSHOT_DEEP == 1 && !CHOICE_DEEPCOPYABLE && VAM_LDM_FEED_GUARDED != 1) = false :=
+  vam_ldm_good
+
+/-- for EVERY clustering state (no manager; VRU-IDLE, -ACTIVE-STANDALONE, -ACTIVE-CLUSTER-LEADER, -PASSIVE with every
+combination of cluster / break-up / join / leave sub-state) and with or without an LDM adapter: the send path never
+fails; it is silent exactly when the state forbids transmission; otherwise the VAM handed to BTP carries the cluster
+information container iff the station leads a cluster and the operation container iff an operation is announced — the
+same VAM with and without the adapter — and the adapter is fed iff configured -/
+theorem vam_send_all_states (c : Option ClState) (ldm : Bool) :
+    let r := vamSend VAM_LDM_SNAPSHOT_DEEP VAM_LDM_FEED_GUARDED CHOICE_DEEPCOPYABLE c ldm
+    r ≠ .fail ∧ (shouldTransmit c = false → r = .silent) ∧
+    (shouldTransmit c = true → ∃ fed, r = .sent (infoDue c) (opDue c) fed ∧ (fed = true → ldm = true) ∧
+      (VAM_LDM_SNAPSHOT_DEEP = 0 ∨ CHOICE_DEEPCOPYABLE = true → fed = ldm)) :=
+  vamSend_spec vam_ldm_good c ldm
+
+/-- non-vacuity: leader with an LDM (information container, LDM fed), leader in the break-up warning (both containers),
+standalone announcing a join, passive (silent), passive leaving (operation container), idle (silent), no manager -/
+example :
+    let v := vamSend VAM_LDM_SNAPSHOT_DEEP VAM_LDM_FEED_GUARDED CHOICE_DEEPCOPYABLE
+    v (some ⟨.leader, true, false, .none, false⟩) true = .sent true false true ∧
+    v (some ⟨.leader, true, true, .none, false⟩) true = .sent true true true ∧
+    v (some ⟨.standalone, false, false, .notify, false⟩) false = .sent false true false ∧
+    v (some ⟨.passive, false, false, .joined, false⟩) true = .silent ∧
+    v (some ⟨.passive, false, false, .joined, true⟩) true = .sent false true true ∧
+    v (some ⟨.idle, false, false, .none, false⟩) true = .silent ∧ v none true = .sent false false true := by decide
+
+/-- witness (the seeded `copy.deepcopy(vam.vam)`): with a deep snapshot and the CHOICE class as it is, the cluster leader
+with an LDM adapter never gets a VAM out; without the adapter, or in any state without the information container, nothing
+changes — which is why only (cluster leader) x (LDM configured) shows it -/
+theorem vam_send_deepcopy_witness :
+    vamSend 1 0 false (some ⟨.leader, true, false, .none, false⟩) true = .fail ∧
+    vamSend 1 0 false (some ⟨.leader, true, false, .none, false⟩) false = .sent true false false ∧
+    vamSend 0 0 false (some ⟨.leader, true, false, .none, false⟩) true = .sent true false true ∧
+    (∀ c ldm, infoDue c = false → vamSend 1 0 false c ldm = vamSend 0 0 false c ldm) := by
+  refine ⟨by decide, by decide, by decide, fun c ldm h => ?_⟩
+  simp [vamSend, h]
 
 /-! ### the defects of the pinned commit (repaired by the `fix:` commits), machine-checked witnesses -/
 
